@@ -30,7 +30,8 @@ NewBucket == [ver |-> "None", objs |-> <<>>]
 
 DefaultCfg == [versioned |-> TRUE, auto |-> FALSE, single |-> "", paginate |-> TRUE,
                pageErr |-> FALSE, suspDelete |-> "set", suspNone |-> "set", oldNull |-> "set",
-               integrity |-> TRUE]
+               integrity |-> TRUE,
+               bad |-> {}]      \* names that can never be buckets (the backends' internal names): not auto-created either
 
 StatusOf(code) ==
   CASE code \in {"BucketAlreadyExists", "BucketNotEmpty"} -> 409
@@ -69,7 +70,7 @@ VerOf(s, vid)   == s[CHOOSE i \in 1..Len(s) : s[i].vid = vid]
 \* single-bucket backend, which cannot create buckets)
 Ensure(st, cfg, b) ==
   IF HasB(st, b) THEN [ok |-> TRUE, st |-> st]
-  ELSE IF cfg.auto /\ cfg.single = ""
+  ELSE IF cfg.auto /\ cfg.single = "" /\ b \notin cfg.bad
          THEN [ok |-> TRUE, st |-> [st EXCEPT !.bk = Upd(@, b, NewBucket)]]
          ELSE [ok |-> FALSE, st |-> st]
 
